@@ -144,8 +144,8 @@ def lake_build(targets, timeout=3000):
     return rc == 0, out
 
 
-def driver_path():
-    return os.path.join(LEAN, ".lake", "build", "bin", "geosdrv")
+def driver_path(exe=None):
+    return os.path.join(LEAN, ".lake", "build", "bin", exe or "geosdrv")
 
 
 _THM_RE = re.compile(r"^\s*(?:@\[[^\]]*\]\s*)?(?:protected\s+|private\s+)?theorem\s+([A-Za-z_][\w.'!?]*)", re.M)
@@ -275,7 +275,7 @@ def failing_lean_items(build_log):
 # --------------------------------------------------------------------------- correspondence
 
 def run_stream(harness_exe, stream, seed, n, workdir, driver_stream=None, harness_args=(), timeout=3000,
-               env=None, shards=1):
+               env=None, shards=1, driver_exe=None):
     """Harness writes <workdir>/<stream>.cases and .expect ; driver reads cases, writes .got ; diff.
     Returns dict(cases, disagreements=[(idx, case, expect, got)], stats=str, error=str|None)."""
     os.makedirs(workdir, exist_ok=True)
@@ -311,7 +311,7 @@ def run_stream(harness_exe, stream, seed, n, workdir, driver_stream=None, harnes
     for base, _ in procs:
         fin = open(base + ".cases", "rb")
         fout = open(base + ".got", "wb")
-        dprocs.append((base, fin, fout, subprocess.Popen([driver_path(), driver_stream or stream], stdin=fin,
+        dprocs.append((base, fin, fout, subprocess.Popen([driver_path(driver_exe), driver_stream or stream], stdin=fin,
                                                          stdout=fout, stderr=subprocess.PIPE)))
     for base, fin, fout, p in dprocs:
         try:
@@ -356,8 +356,8 @@ def run_stream(harness_exe, stream, seed, n, workdir, driver_stream=None, harnes
     return res
 
 
-def run_driver_lines(stream, lines, timeout=600):
-    p = subprocess.run([driver_path(), stream], input=("\n".join(lines) + "\n").encode(), stdout=subprocess.PIPE,
+def run_driver_lines(stream, lines, timeout=600, driver_exe=None):
+    p = subprocess.run([driver_path(driver_exe), stream], input=("\n".join(lines) + "\n").encode(), stdout=subprocess.PIPE,
                        stderr=subprocess.PIPE, timeout=timeout)
     return p.returncode, p.stdout.decode("utf-8", "replace").split("\n")
 
